@@ -75,6 +75,21 @@ CHECKS = {
          "offsets incl. 2^32-16..2^32-1, all 256 int vectors, 40k control strings) and every implementation answer is checked against the architectural rule directly."),
    note=TB + "flow_spec (mnemonic -> class) is a hand-written specification from the Intel SDM. Operand-size of 66-prefixed rel16 branches is a decode question handled under C01.",
    design='4/C17'),
+ 'C01': dict(
+   technique='Coq vm_compute reflection: the ModRM/SIB tables regenerated from the library agree with the SDM addressing forms for all 256x256 byte pairs; decoder walk modelled in Gallina and tied by exact-output correspondence; opcode maps validated against GNU objdump (external reference)',
+   text=("Theorems (props/C01.v, closed): for ALL ModRM x SIB bytes (32-bit) and all ModRM bytes (16-bit) the table entry miasmx builds has the base/index/scale/displacement kind/register form of "
+         "SDM tables 2-1..2-3 (written as formulas in X86Ref.v). The decoder walk (X86Dis.v over the regenerated opcode trie and mnemonic records) equals x86mnemo.dis field by field on the control space "
+         "(0.55M quick / 6.1M thorough strings; raw bytes = consumed prefix checked by the runner). Agreement of the opcode maps with IA-32 is NOT proved: every accepted string is decoded by objdump 2.40 "
+         "and compared after normalisation (length, mnemonic, registers, memory base/index/scale/disp/segment/size, immediates, branch displacement); ~170 disagreement classes are listed as known findings."),
+   note=TB + "X86Ref.v (SDM ModRM/SIB forms) is a hand-written specification; objdump is an external oracle (validation, not proof); the text normaliser and alias table are part of the harness. Control space is a fixed enumeration per tier.",
+   design='4/C01'),
+ 'C18': dict(
+   technique='Coq proof: a syntactic disjointness test on class constraints proved sound (bitwise lemmas) and checked by vm_compute for all 82*81/2 class pairs regenerated from the library => at most one class per word for ALL words; re-encoding identity by a field-mask lemma; correspondence on structured + random words',
+   text=("Theorems (props/C18.v, closed): for every integer word at most one class of tab_mn (re-dumped on every run) claims it; the fields of every class tile the 32 bits; for every class with plain codecs and "
+         "every 32-bit word, bin(parse(w)) = w. Tie: Ppc.v (check, field codecs, bin) vs ppc_arch on 0.63M structured + random words. The text fixpoint (str/asm) and the architecture's opcode assignment "
+         "(hand-written UISA table) are checked by execution on all structured decodable words; 30 classes whose text round trip fails are known findings."),
+   note=TB + "No executable PowerPC reference is available offline: the opcode table in p_c18.py is hand-written. The per-class string code (str/asm) has no Gallina model.",
+   design='4/C18'),
 }
 PENDING = {p: 'check under construction in this round (see DESIGN.md section 6 staging); not claimed yet' for p in ALL}
 def main():
